@@ -32,7 +32,7 @@ def einsumASOfJson (j : Json) : Except String (EinsumAS × (String → Pts)) := 
       let idx ← listOf affOfJson (← fld x "idx")
       let pts ← ptsOfJson (← fld x "pts")
       env := (name, pts) :: env
-      tensors := tensors ++ [{ name := name, ranks := ranks, idx := idx.map fun e => ⟨e, isProj e⟩ }]
+      tensors := tensors ++ [{ name := name, ranks := ranks, idx := idx.map fun e => { e := e, proj := isProj e } }]
     terms := terms ++ [{ kind := Kind.times, scal := scal, tensors := tensors }]
   let envF : String → Pts := fun n => (env.lookup n).getD []
   return ({ loop := loop, exts := exts, outName := outName, outVars := outVars, terms := terms }, envF)
@@ -138,17 +138,19 @@ structure Pending where
   rank : String
   orig : AffS
   cur : List (Int × String)
+  proj : Bool
+  ivl : Bool
 
-def expectedUses (S : EinsumAS) : List (String × List (String × Bool × AffS)) :=
+def expectedUses (S : EinsumAS) : List (String × List (String × (Bool × Bool) × AffS)) :=
   let pend0 : List (List Pending) := S.terms.flatMap fun t => t.tensors.map fun x =>
-    (concordA S.loop x).map fun rk => ⟨x.name, rk, (accOf x rk).e, (accOf x rk).e.terms⟩
-  let rec go : List String → List (List Pending) → List (String × List (String × Bool × AffS))
+    (concordA S.loop x).map fun rk => ⟨x.name, rk, (accOf x rk).e, (accOf x rk).e.terms, (accOf x rk).proj, (accOf x rk).ivl⟩
+  let rec go : List String → List (List Pending) → List (String × List (String × (Bool × Bool) × AffS))
     | [], _ => []
     | r :: rest, pend =>
       let act := pend.filterMap fun ps => match ps with
-        | p :: _ => if readyT r p.cur then some (p.tensor.toLower ++ "_" ++ p.rank.toLower, isProj p.orig, p.orig) else none
+        | p :: _ => if readyT r p.cur && p.tensor != "tile__" then some (p.tensor.toLower ++ "_" ++ p.rank.toLower, (p.proj, p.ivl), p.orig) else none
         | [] => none
-      let out := if S.outVars.contains r then [(S.outName.toLower ++ "_" ++ r, false, (⟨[(1, r)], 0⟩ : AffS))] else []
+      let out := if S.outVars.contains r then [(S.outName.toLower ++ "_" ++ r, (false, false), (⟨[(1, r)], 0⟩ : AffS))] else []
       let pend' := pend.map fun ps => match ps with
         | p :: tl => (if readyT r p.cur then tl else p :: tl).map fun q => { q with cur := restT r q.cur }
         | [] => []
@@ -166,13 +168,13 @@ def lambdaOK (r : String) (e : AffS) (param : String) (body : Expr) : Bool :=
     qeq (l.coef param) (1, a) && (others.all fun v => qeq (l.coef v) (-(e.coef v), a)) && qeq l.const (-e.const, a) &&
       (l.vars.all fun v => v == param || others.contains v || qeq (l.coef v) (0, 1))
 
-def checkLoop (exp : String × List (String × Bool × AffS)) (act : String × List FiberUse) : List String :=
+def checkLoop (exp : String × List (String × (Bool × Bool) × AffS)) (act : String × List FiberUse) : List String :=
   let (r, es) := exp
   let (v, us) := act
   let errs0 := if r == v then [] else [s!"loop variable {v}, expected {r}"]
   let errs1 := if (es.map (·.1)).mergeSort == (us.map (·.fiber)).mergeSort then [] else
     [s!"loop {r}: co-iterated fibers {us.map (·.fiber)}, expected {es.map (·.1)}"]
-  let errs2 := es.flatMap fun (fib, pj, e) =>
+  let errs2 := es.flatMap fun (fib, (pj, ivl), e) =>
     match us.find? (·.fiber == fib) with
     | none => []
     | some u =>
@@ -182,11 +184,119 @@ def checkLoop (exp : String × List (String × Bool × AffS)) (act : String × L
       | true, none => [s!"loop {r}: {fib} is not projected although its access is {repr e.terms}"]
       | true, some (p, body, hi) =>
         (if lambdaOK r e p body then [] else [s!"loop {r}: trans_fn of {fib} ({body.gen}) is not the inverse of the access"]) ++
-        (match hi with
-         | some (.var X) => if X == r.toUpper then [] else [s!"loop {r}: interval of {fib} ends at {X}"]
-         | _ => [s!"loop {r}: no interval (0, {r.toUpper}) on the projection of {fib}"]) ++
-        (if u.pruned || e.coef r == 1 || e.coef r == -1 then [] else [s!"loop {r}: stride {e.coef r} without the integrality prune on {fib}"])
+        (match ivl, hi with
+         | true, some (.var X) => if X == r.toUpper then [] else [s!"loop {r}: interval of {fib} ends at {X}"]
+         | true, _ => [s!"loop {r}: no interval (0, {r.toUpper}) on the projection of {fib}"]
+         | false, none => []
+         | false, some _ => [s!"loop {r}: the model expects no interval on the projection of {fib}"]) ++
+        -- (the upper level of a halo-split rank holds multiples of stride * size only: its projection is integral without a prune)
+        (if u.pruned || !ivl || e.coef r == 1 || e.coef r == -1 then [] else [s!"loop {r}: stride {e.coef r} without the integrality prune on {fib}"])
   errs0 ++ errs1 ++ errs2
+
+/-! ### shape partitioning of the output rank with the input rank following (output-stationary form `[.., Q1, .., Q0, .., S ..]`) -/
+
+/-- `splitUniform(step, depth=d, post_halo=halo)` on points: the element at coordinate `w` of rank `d` lands in every partition
+    `p` (a multiple of `step`) whose window `[p, p + step + halo)` contains it -/
+def splitHaloAt (d step halo : Nat) (P : Pts) : Pts :=
+  P.flatMap fun (cs, v) =>
+    match cs[d]? with
+    | none => []
+    | some w =>
+      ((List.range (w / step + 1)).filterMap fun j =>
+        let p := j * step
+        if p ≤ w ∧ w < p + step + halo then some (cs.take d ++ [p, w] ++ cs.drop (d + 1), v) else none)
+
+def renameVar (q q' : String) (e : AffS) : AffS := ⟨e.terms.map fun t => (t.1, if t.2 == q then q' else t.2), e.const⟩
+
+structure PartSpec where
+  q : String                       -- the partitioned index variable
+  n : Nat                          -- partition size
+  followers : List (String × Nat)  -- (tensor, rank index) of the accesses a*q + rho that follow
+
+def partOfJson (j : Json) : Except String PartSpec := do
+  let fs ← (← HF.arr (← fld j "followers")).toList.mapM fun f => do
+    let a ← HF.arr f
+    pure ((← HF.strOf a[0]!), (← natOf a[1]!))
+  pure ⟨← HF.strOf (← fld j "q"), ← natOf (← fld j "n"), fs⟩
+
+/-- halo of an access `a*q + rho`: the largest value `rho` takes (coefficients of `rho` not negative) -/
+def haloOf (q : String) (e : AffS) (ext : String → Nat) : Nat :=
+  ((e.terms.filter fun t => t.2 != q).map fun t => t.1.toNat * (ext t.2 - 1)).sum
+
+/-- the partitioned form: `q` becomes `(q1, q0)`; a follower access `a*q + rho` on rank `R` becomes `(a*q1, a*q0 + rho)` on
+    `(R1, R0)` of the halo-split tensor; a virtual tile tensor `T'[q0 - q1]` (1 on `0..n-1`) stands for the range loop
+    `iterRangeShapeRef(q1, min(q1 + n, Q))`.  Returns the Einsum, its inputs and, per follower, (tensor, depth, step, halo). -/
+def partitionedForm (S0 : EinsumAS) (env : String → Pts) (ps : PartSpec) (loop : List String) (exts : List Nat) :
+    EinsumAS × (String → Pts) × List (String × Nat × Nat × Nat) :=
+  let q1 := ps.q ++ "1"
+  let q0 := ps.q ++ "0"
+  let extOf : String → Nat := fun v => ((S0.loop.zip S0.exts).lookup v).getD 1
+  let conv (x : TensorAS) : TensorAS × Option (Nat × Nat × Nat) :=
+    let hit := (List.range x.idx.length).find? fun i => ps.followers.contains (x.name, i)
+    match hit with
+    | some i =>
+      let a := (x.idx.getD i default).e
+      let aq := a.coef ps.q
+      let step := aq.toNat * ps.n
+      let halo := haloOf ps.q a extOf
+      let up : AccA := { e := ⟨[(aq, q1)], 0⟩, proj := true, ivl := false }
+      let lo : AccA := { e := renameVar ps.q q0 a, proj := C04.isProjE (renameVar ps.q q0 a) }
+      let rk := x.ranks.getD i "?"
+      let idx' := (x.idx.take i).map (fun c => ({ e := renameVar ps.q q0 c.e, proj := c.proj } : AccA)) ++ [up, lo] ++
+        (x.idx.drop (i + 1)).map (fun c => ({ e := renameVar ps.q q0 c.e, proj := c.proj } : AccA))
+      ({ name := x.name, ranks := x.ranks.take i ++ [rk ++ "1", rk ++ "0"] ++ x.ranks.drop (i + 1), idx := idx' }, some (i, step, halo))
+    | none => ({ x with idx := x.idx.map fun c => { e := renameVar ps.q q0 c.e, proj := c.proj } }, none)
+  let tile : TensorAS := { name := "tile__", ranks := ["T"], idx := [{ e := ⟨[(1, q0), (-1, q1)], 0⟩, proj := true }] }
+  let terms := S0.terms.map fun t => { t with tensors := t.tensors.map (fun x => (conv x).1) ++ [tile] }
+  let splits := S0.terms.flatMap fun t => t.tensors.filterMap fun x => (conv x).2.map fun (i, st, h) => (x.name, i, st, h)
+  let env' : String → Pts := fun nm =>
+    if nm == "tile__" then (List.range ps.n).map fun d => ([d], (1 : Int))
+    else match splits.find? (·.1 == nm) with
+      | some (_, i, st, h) => splitHaloAt i st h (env nm)
+      | none => env nm
+  ({ loop := loop, exts := exts, outName := S0.outName, outVars := S0.outVars.map fun v => if v == ps.q then q0 else v, terms := terms },
+   env', splits)
+
+/-- numeric value of an emitted bound / step expression (`int(x)`, `min(a, b)`, `+ - *`, names from the environment) -/
+partial def evalNum (env : String → Option Int) : Expr → Option Int
+  | .int i => some i
+  | .var v => env v
+  | .parens e => evalNum env e
+  | .func "int" _ [e] => evalNum env e
+  | .func "min" _ [a, b] => do pure (min (← evalNum env a) (← evalNum env b))
+  | .binop l .add r => do pure ((← evalNum env l) + (← evalNum env r))
+  | .binop l .sub r => do pure ((← evalNum env l) - (← evalNum env r))
+  | .binop l .mul r => do pure ((← evalNum env l) * (← evalNum env r))
+  | .binop l .fdiv r => do
+    let b ← evalNum env r
+    if b == 0 then none else pure ((← evalNum env l) / b)
+  | _ => none
+
+/-- all `x.splitUniform(step, depth=, pre_halo=, post_halo=)` calls of the program, evaluated: (receiver, step, depth, pre, post) -/
+partial def splitCalls (env : String → Option Int) : Stmt → List (String × Option Int × Int × Int × Int)
+  | .block ss => ss.flatMap (splitCalls env)
+  | .for_ _ _ b => splitCalls env b
+  | .assign _ (.method (.var y) "splitUniform" kw args) =>
+    let num (k : String) : Int := ((kwArg kw args k).bind (evalNum env)).getD 0
+    [(y, (args.head?).bind (evalNum env), num "depth", num "pre_halo", num "post_halo")]
+  | _ => []
+
+/-- the range loop of the partitioned output: `iterRangeShapeRef(lo, hi, 1)` must run from `q1` to `min(q1 + n, Q)` -/
+partial def rangeLoops (env : String → Option Int) (q1 : String) (tests : List Int) : Stmt → List (String × Bool)
+  | .block ss => ss.flatMap (rangeLoops env q1 tests)
+  | .for_ p (.method _ "iterRangeShapeRef" _ [lo, hi, st]) b =>
+    let v := match p with
+      | .tuple (.var x :: _) => x
+      | .var x => x
+      | _ => "?"
+    let ok := tests.all fun t =>
+      let env' : String → Option Int := fun x => if x == q1 then some t else env x
+      match evalNum env' lo, evalNum env' hi, evalNum env' st, env "Q__", env "N__" with
+      | some l, some h, some s1, some Qv, some nv => l == t && h == min (t + nv) Qv && s1 == 1
+      | _, _, _, _, _ => false
+    (v, ok) :: rangeLoops env q1 tests b
+  | .for_ _ _ b => rangeLoops env q1 tests b
+  | _ => []
 
 def nestAff (j : Json) : Except String Json := do
   let (S0, env) ← einsumASOfJson j
@@ -194,9 +304,16 @@ def nestAff (j : Json) : Except String Json := do
   let own ← match j.getObjVal? "own" with
     | .ok oj => do pure (some (← ownOfJson oj))
     | .error _ => pure none
-  let S : EinsumAS := match own with
-    | some o => { S0 with terms := C04.loopFormTerms o.s o.w o.c0 o.rho S0.terms }
-    | none => S0
+  let part ← match j.getObjVal? "part" with
+    | .ok pj => do pure (some (← partOfJson pj))
+    | .error _ => pure none
+  let (S, env, splits) ← match own, part with
+    | some o, _ => pure ({ S0 with terms := C04.loopFormTerms o.s o.w o.c0 o.rho S0.terms }, env, [])
+    | none, some ps => do
+      let loop2 ← strList (← fld j "loop2")
+      let exts2 ← natList (← fld j "exts2")
+      pure (partitionedForm S0 env ps loop2 exts2)
+    | none, none => pure (S0, env, [])
   let ls := levelsA S
   let sts := initTermsA S env
   let r := collectA S (runA ls sts)
@@ -209,15 +326,39 @@ def nestAff (j : Json) : Except String Json := do
         decide (C04.VarHyps o.s o.w o.c0 o.rho o.Se We (concord S.loop S.outVars) S0.terms env)
     | none => true
   let hyps := decide (C04.HypsA S env) && varOK
-  let exp := expectedUses S
+  -- the partitioned output takes part in the loop over the upper level as well (its upper coordinate is merged away afterwards)
+  let exp := (expectedUses S).map fun (v, es) =>
+    match part with
+    | some ps => if v == ps.q ++ "1" then (v, (S.outName.toLower ++ "_" ++ v, (false, false), (⟨[(1, v)], 0⟩ : AffS)) :: es) else (v, es)
+    | none => (v, es)
   let base := [("run", jPts r), ("spec", jPts m), ("hyps_ok", Json.bool hyps),
                ("expected_loops", Json.arr (exp.map fun (v, es) => Json.arr #[Json.str v, jStrs (es.map (·.1))]).toArray)]
   match j.getObjVal? "tree" with
   | .ok tj =>
     let s ← HF.stmtOfJson tj
     let act := loopUses s
-    let errs := if act.length < exp.length then [s!"{act.length} loops, expected {exp.length}"] else
+    let errs0 := if act.length < exp.length then [s!"{act.length} loops, expected {exp.length}"] else
       (exp.zip act).flatMap fun (e, a) => checkLoop e a
+    -- partitioned form: the header's splitUniform calls and the range loop over the lower output level
+    let errsP ← match part with
+      | none => pure []
+      | some ps => do
+        let envJ ← fld j "env"
+        let envL ← match envJ.getObj? with
+          | .ok o => pure (o.toList.filterMap fun (k, v) => match v.getInt? with | .ok i => some (k, i) | .error _ => none)
+          | .error _ => throw "env"
+        let envF : String → Option Int := fun x => envL.lookup x
+        let calls := splitCalls envF s
+        let e1 := splits.flatMap fun (nm, d, st, h) =>
+          if calls.any fun (_, st', d', pre, post) => st' == some (st : Int) && d' == (d : Int) && pre == 0 && post == (h : Int) then []
+          else [s!"no splitUniform({st}, depth={d}, post_halo={h}) for {nm} in the header (calls: {calls.map fun c => (c.2.1, c.2.2)})"]
+        let rl := rangeLoops envF (ps.q ++ "1") [0, (ps.n : Int), 2 * (ps.n : Int)] s
+        let e2 := match rl.find? (·.1 == ps.q ++ "0") with
+          | some (_, true) => []
+          | some (_, false) => [s!"the range loop over {ps.q}0 does not run from {ps.q}1 to min({ps.q}1 + {ps.n}, extent)"]
+          | none => [s!"no iterRangeShapeRef loop over {ps.q}0"]
+        pure (e1 ++ e2)
+    let errs := errs0 ++ errsP
     return Json.mkObj (base ++ [("skeleton_errors", jStrs errs),
       ("actual_loops", Json.arr (act.map fun (v, us) => Json.arr #[Json.str v, jStrs (us.map (·.fiber))]).toArray)])
   | .error _ => return Json.mkObj base
